@@ -340,3 +340,8 @@ def run(tier, rep):
             kres.pop("inconclusive", None)
         rep.merge_worker(kres)
     rep.assumptions += ["hook H1 stands in for the kernel audit map; lookup and remove are separate traced operations"]
+    # which record a source port carries is decided in the eBPF program (audit_map keyed by source port): a slice of the C06 engine (ASan model,
+    # worlds with source-port reuse over unconsumed records) judges that a reused port carries the record of the NEW connection
+    from . import c06
+    c06.ebpf_slice(tier, rep, keep=("record-wrong", "record-for-connect-that-must-not-have-one", "redirected-connect-left-no-record", "sanitizer"), nworlds=400 if tier == "quick" else 4000,
+                   kernel=False, label="record under a reused source port")
